@@ -196,9 +196,32 @@ func judge(f failer, c editCase, class string, s *sess, ia, ib *keys.Identity, t
 			recv, or = s.a, s.oa
 		}
 		if completed(c.proto, recv, or) {
+			if coincidentallyIntact(c, s) {
+				return // the byte stream the receiver consumed for the handshake equals the original one
+			}
 			f.Fatalf("%s: %s received edited handshake data and completed the handshake (%s); original frame %x", ctx, recv, or, s.ap.Orig)
 		}
 	}
+}
+
+// coincidentallyIntact: a frame cut short without adjusting its length field makes the receiver
+// take the missing bytes from whatever the sender transmits next. When those bytes happen to
+// equal the removed ones (a 1-byte cut: 1 case in 256) the receiver has consumed exactly the
+// original handshake bytes and rightly completes; only the data after the handshake is shifted.
+func coincidentallyIntact(c editCase, s *sess) bool {
+	if c.op != "trunc-nofix" || !s.ap.Changed || c.idx >= len(s.frames[c.dir]) {
+		return false
+	}
+	cut := framing(c.proto).HeaderLen() + s.ap.N
+	if cut > len(s.ap.Orig) {
+		return false
+	}
+	removed := s.ap.Orig[cut:]
+	var next []byte
+	for _, fr := range s.frames[c.dir][c.idx+1:] {
+		next = append(next, fr...)
+	}
+	return len(next) >= len(removed) && bytes.Equal(next[:len(removed)], removed)
 }
 
 func outcomeLabel(s *sess) string {
